@@ -38,7 +38,7 @@ ASSUMPTIONS = [
     "joblib/loky service threads are reported, not judged (no black_it frame on their stack)",
     "RL scheduler with a saving folder cannot run at all (known finding rl-scheduler-not-checkpointable under C04): that combination is counted, not enumerated",
 ]
-REQUIRED_COUNTERS = {"fault_class_value": 10, "fault_class_arith": 8, "fault_class_twoargs": 10, "fault_class_local": 10, "faults_with_verbose_on": 50, "loss_faults_part_way_through_an_evaluation": 15, "folder_restored_after_fault": 30, "faults_not_exception_subclass": 30, "faults_injected": 200, "faults_model": 80, "faults_loss": 40, "faults_sampler": 40, "faults_rl": 60, "faults_njobs2": 20,
+REQUIRED_COUNTERS = {"fault_class_value": 10, "fault_class_arith": 8, "fault_class_twoargs": 10, "fault_class_local": 10, "faults_with_verbose_on": 50, "loss_faults_part_way_through_an_evaluation": 15, "folder_restored_after_fault": 30, "faults_not_exception_subclass": 30, "faults_injected": 200, "faults_model": 80, "faults_loss": 40, "faults_sampler": 40, "faults_rl": 40, "faults_njobs2": 20,
                      "faults_with_folder": 60, "reuse_ok": 200, "child_process_exits": 1}
 SHARDS = {"quick": 16, "thorough": 16}
 SHARD_WATCHDOG = {"quick": 1500, "thorough": 10800}
